@@ -21,7 +21,8 @@ CLAIM = dict(
          "independent Python model (copy independence, self-assignment, refusal at capacity with unchanged contents and SVEC_CAPACITY hook event); the counting "
          "allocator behind nmtools_malloc/free/memcpy (live set, double free, free of unknown pointer, memcpy outside its block), the constructor/destructor registry of "
          "the counted type and the bounds hooks are checked at every quiescent point. Held-on-observed, not a proof.",
-    note="Cells created by a sized constructor or a growing resize and never written are unspecified (malloc) and are neither read nor compared; "
+    note="Cells created by a sized constructor or a growing resize are compared with T() for utl::vector (value-initialised like std::vector); for static_vector "
+         "and small_vector such never-written cells are unspecified (stale after shrink/grow) and are neither read nor compared; "
          "raw storage of the objects is pre-filled (0x00, and 0xCD for scripted histories) so that use of unconstructed members is deterministic. "
          "Trusted: std:: containers / Python lists as the model, ASan/UBSan/valgrind, the counting allocator of harness/c19_hist.hpp.",
     ref="DESIGN.md 4/C19")
@@ -38,26 +39,24 @@ CONFIGS = [
     dict(cont="vector", et="double", bin="c19_seq", kind=0, etc=1, family="seq", mk="vec"),
     dict(cont="static_vector", et="int", bin="c19_seq", kind=1, etc=0, family="seq", mk="svec", primary=True, deep=True),
     dict(cont="static_vector", et="double", bin="c19_seq", kind=1, etc=1, family="seq", mk="svec"),
-    dict(cont="small_vector_utl", et="int", bin="c19_seq", kind=2, etc=0, family="seq", mk="smallu", primary=True, fragile=True),
-    dict(cont="small_vector_utl", et="double", bin="c19_seq", kind=2, etc=1, family="seq", mk="smallu", fragile=True),
+    dict(cont="small_vector_utl", et="int", bin="c19_seq", kind=2, etc=0, family="seq", mk="smallu", primary=True),
+    dict(cont="small_vector_utl", et="double", bin="c19_seq", kind=2, etc=1, family="seq", mk="smallu"),
     dict(cont="small_vector", et="int", bin="c19_seq", kind=3, etc=0, family="seq", mk="smalld"),
     dict(cont="small_vector", et="double", bin="c19_seq", kind=3, etc=1, family="seq", mk="smalld"),
     dict(cont="array", et="int", bin="c19_seq", kind=4, etc=0, family="seq", mk="arr"),
     dict(cont="array", et="double", bin="c19_seq", kind=4, etc=1, family="seq", mk="arr"),
     dict(cont="vector", et="counted", bin="c19_vnt", kind=0, etc=0, family="seq", mk="vec", ak="vnt"),
-    # copying a never-written cell evaluates an indeterminate enum tag (UBSan abort) -> scripted histories only
-    dict(cont="vector", et="maybe_int", bin="c19_vnt", kind=0, etc=1, family="seq", mk="vec", ak="vnt", scripted_only=True),
-    # unchanged tree: either::operator= reads the tag of the never-constructed destination cell (UBSan abort) -> scripted histories only
-    dict(cont="vector", et="either_int_double", bin="c19_vnt", kind=0, etc=2, family="seq", mk="vec", ak="vnt", scripted_only=True),
+    dict(cont="vector", et="maybe_int", bin="c19_vnt", kind=0, etc=1, family="seq", mk="vec", ak="vnt"),
+    dict(cont="vector", et="either_int_double", bin="c19_vnt", kind=0, etc=2, family="seq", mk="vec", ak="vnt"),
     dict(cont="maybe", et="int", bin="c19_sum", kind=0, etc=0, family="maybe", eks=("int",)),
     dict(cont="maybe", et="double", bin="c19_sum", kind=0, etc=1, family="maybe", eks=("double",)),
     dict(cont="maybe", et="counted", bin="c19_sum", kind=0, etc=2, family="maybe", eks=("counted",), primary=True, deep=True),
-    dict(cont="maybe", et="vector_int", bin="c19_sum", kind=0, etc=3, family="maybe", eks=("vec",), primary=True, fragile=True),
+    dict(cont="maybe", et="vector_int", bin="c19_sum", kind=0, etc=3, family="maybe", eks=("vec",), primary=True),
     dict(cont="either", et="int_double", bin="c19_sum", kind=1, etc=0, family="either", eks=("int", "double")),
     dict(cont="either", et="counted_int", bin="c19_sum", kind=1, etc=1, family="either", eks=("counted", "int"), primary=True, deep=True, deepq=True),
     dict(cont="either", et="int_counted", bin="c19_sum", kind=1, etc=2, family="either", eks=("int", "counted")),
-    dict(cont="either", et="vector_int", bin="c19_sum", kind=1, etc=3, family="either", eks=("vec", "int"), primary=True, fragile=True),
-    dict(cont="either", et="int_vector", bin="c19_sum", kind=1, etc=4, family="either", eks=("int", "vec"), fragile=True),
+    dict(cont="either", et="vector_int", bin="c19_sum", kind=1, etc=3, family="either", eks=("vec", "int"), primary=True),
+    dict(cont="either", et="int_vector", bin="c19_sum", kind=1, etc=4, family="either", eks=("int", "vec")),
     dict(cont="tuple", et="int_double_int", bin="c19_tup", kind=0, etc=0, family="tuple", eks=("int", "double", "int"), conv=True),
     dict(cont="tuple", et="counted_int_vector", bin="c19_tup", kind=0, etc=1, family="tuple", eks=("counted", "int", "vec"), conv=False),
     dict(cont="tuplev2", et="int_double_int", bin="c19_tup", kind=1, etc=0, family="tuple", eks=("int", "double", "int"), conv=True),
@@ -344,6 +343,9 @@ def run(ctx):
         for _ in range(nquiet):   # verdict of the C++ side model only
             st = M.random_history(rng, c["family"], c.get("ak", c.get("mk")), maxlen)
             add(c, "histq %d %d %d %s" % (c["kind"], c["etc"], 0, fmt_steps(st)), dict(kind="histq", steps=st, fill=0))
+        if c.get("ak") == "vnt":
+            for st in SCRIPTED_VNT:
+                add(c, hist_line(c, 0, st), dict(kind="hist", steps=st, fill=0, scripted=True))
         # scripted histories on poisoned storage
         for st in M.fixed_histories(c["family"], c.get("mk")):
             add(c, hist_line(c, POISON, st), dict(kind="hist", steps=st, fill=POISON, scripted=True))
@@ -464,8 +466,8 @@ def run(ctx):
             ctx.inconc("%s: no over-capacity operation / SVEC_CAPACITY hook event observed" % cname(c))
         if c["family"] == "seq" and c["mk"] in ("smallu", "smalld") and not any(k.endswith("_cross") for k in a.opclasses):
             ctx.inconc("%s: the static->dynamic threshold was never crossed" % cname(c))
-        if c["family"] == "seq" and c["mk"] == "vec" and (a.allocs == 0 or a.memcpys == 0):
-            ctx.inconc("%s: counting allocator saw no allocation / memcpy" % cname(c))
+        if c["family"] == "seq" and c["mk"] == "vec" and not c.get("scripted_only") and (a.allocs == 0 or a.frees == 0):
+            ctx.inconc("%s: counting allocator saw no allocation / free" % cname(c))
         if "counted" in c.get("eks", ()) and a.obj_ctor == 0:
             ctx.inconc("%s: counted element type never constructed" % cname(c))
     ctx.ev(tot_hist)
